@@ -49,6 +49,12 @@ var Fn F
 var Ch chan int
 var Sl = []int{1, 2, 3}
 var IV I = C{}
+var JV J = jimpl{}
+
+type One struct{ A int }
+type PSp *S
+
+func mkPSp() PSp { return &S{A: 5} }
 
 func two() (wire.ProviderSet, wire.ProviderSet) { return wire.NewSet(NewA), wire.NewSet() }
 func GenF[T any]() (z T)                        { return }
@@ -146,7 +152,13 @@ def forms():
     add("struct-unknown-name", 'wire.Struct(new(S), "Z"), NewA', res="S")
     add("struct-raw-name", "wire.Struct(new(S), `A`), NewA", res="S")
     add("struct-dup-type", 'wire.Struct(new(struct{ A, B int }), "*"), NewA', res="struct{ A, B int }", key="struct-first-arg:new-anonymous-struct")
+    add("struct-repeated-name-short", 'wire.Struct(new(One), "A", "A"), NewA', res="One")
+    add("struct-repeated-name-long", 'wire.Struct(new(S), "A", "B", "A"), NewA, NewB', res="S")
+    add("struct-repeated-star", 'wire.Struct(new(One), "*", "*"), NewA', res="One", expect="any")
     # ---- wire.FieldsOf
+    add("fields-defined-pointer-type", 'wire.FieldsOf(new(PSp), "A"), mkPSp', res="*int", expect="ok")
+    add("fields-defined-pointer-type-value", 'wire.FieldsOf(new(PSp), "A"), mkPSp', res="int", expect="ok")
+    add("fields-repeated-name", 'wire.FieldsOf(new(S), "A", "A"), wire.Struct(new(S), "B"), NewB', expect="any")
     add("fields-value", 'wire.FieldsOf(new(S), "A"), wire.Struct(new(S), "B"), NewB', expect="ok")
     add("fields-pointer", 'wire.FieldsOf(new(*S), "A"), wire.Struct(new(S), "B"), NewB', expect="ok")
     add("fields-ptr-ptr", 'wire.FieldsOf(new(**S), "A")', key="fieldsof-first-arg:pointer-to-pointer-to-pointer")
@@ -185,6 +197,8 @@ def forms():
     add("ifacevalue-ok", "wire.InterfaceValue(new(I), C{})", res="I", expect="ok")
     add("ifacevalue-not-impl", "wire.InterfaceValue(new(I), S{})", res="I")
     add("ifacevalue-not-iface", "wire.InterfaceValue(new(C), C{})", res="C")
+    add("ifacevalue-smaller-iface", "wire.InterfaceValue(new(J), IV)", res="J")
+    add("ifacevalue-larger-iface", "wire.InterfaceValue(new(I), JV)", res="I", expect="ok")
     # ---- result types (zero value in the error branch)
     for i, t in enumerate(["unsafe.Pointer", "func() int", "F", "chan int", "map[string]int", "[2]int", "G[int]", "*S", "I", "[]string", "struct{ A int }", "any", "error", "uintptr", "complex128"]):
         add("result-%d" % i, "newR%d" % i, res=t, expect="ok")
@@ -219,6 +233,8 @@ def eng_forms(pid, tier, wd, known, replay=None):
         fs = [f for f in fs if f["name"].startswith(("value", "ifacevalue"))]
     elif pid == "C11":
         fs = [f for f in fs if f["name"].startswith("bind")]
+    elif pid == "C12":
+        fs = [f for f in fs if f["name"].startswith(("struct", "fields"))]
     if replay is not None and replay.get("input", {}).get("form"):
         fs = [f for f in fs if f["name"] == replay["input"]["form"]["name"]]
     tools = build_tools()
